@@ -117,16 +117,49 @@ def cpu_budget(seconds: float, mem_bytes: int = 6 << 30):
 
 
 # ------------------------------------------------------------------ the clock seam
+_PRELOADED = False
+
+
+def _preload():
+    """import every puresnmp / plug-in module while the real clock is installed, so that a module that binds the clock by name
+    (`from time import time`) is seen - and restored - by patched_clock instead of capturing the virtual clock for good"""
+    global _PRELOADED
+    if _PRELOADED:
+        return
+    _PRELOADED = True
+    import importlib, pkgutil
+    for root in ("puresnmp", "puresnmp_plugins"):
+        try:
+            pkg = importlib.import_module(root)
+        except Exception:
+            continue
+        names = [m.name for m in pkgutil.walk_packages(pkg.__path__, root + ".")]
+        if root == "puresnmp_plugins":         # namespace packages: walk_packages does not descend into them
+            for sub in ("auth", "mpm", "priv", "security"):
+                try:
+                    sp = importlib.import_module(root + "." + sub)
+                    names += [m.name for m in pkgutil.iter_modules(sp.__path__, root + "." + sub + ".")]
+                except Exception:
+                    pass
+        for n in names:
+            try:
+                importlib.import_module(n)
+            except Exception:
+                pass
+
+
 @contextlib.contextmanager
 def patched_clock(now, request_id=None, monotonic=False):
     """Install `now()` as the library's clock for the enclosed code, whichever way the library reads it:
-    time.time (module attribute), puresnmp.util.time (imported by name) and - so that the seam survives a refactoring of the
+    time.time (module attribute), every module-level alias of time.time in a puresnmp module (imported by name) and - so that the seam survives a refactoring of the
     id source - get_request_id in every puresnmp module that holds it, which then returns int(request_id()) (default: int(now())).
     monotonic=True also replaces time.monotonic (only for runs that use no event-loop timers).
     now=None leaves the clock alone and only fixes the request ids."""
     import sys, time as _t
+    _preload()
     rid = request_id or now
     saved = []
+    real_time, real_monotonic = _t.time, _t.monotonic
 
     def put(obj, name, val):
         saved.append((obj, name, getattr(obj, name)))
@@ -140,8 +173,13 @@ def patched_clock(now, request_id=None, monotonic=False):
             continue
         if hasattr(mod, "get_request_id"):
             put(mod, "get_request_id", lambda: int(rid()))
-        if now is not None and name == "puresnmp.util" and hasattr(mod, "time") and callable(getattr(mod, "time")):
-            put(mod, "time", now)
+        if now is not None:
+            # `from time import time [as x]` / `from time import monotonic`: any module-level alias of the real clock functions
+            for attr, val in list(vars(mod).items()):
+                if val is real_time:
+                    put(mod, attr, now)
+                elif monotonic and val is real_monotonic:
+                    put(mod, attr, now)
     try:
         yield
     finally:
